@@ -30,6 +30,23 @@ for p in props:
         level_note=mf.get("level_note", ""),
         technique=mf.get("technique", "Rocq/Coq 8.16 theorems over an executable Gallina model, tied to the Go code by per-run differential correspondence (vm_compute) and a decidable property checker on implementation traces"),
     ))
+# merged known-findings file (the per-property fragments known_findings/Cnn.json are the source)
+import glob, subprocess
+kf = []
+for fp in sorted(glob.glob(os.path.join(V, "known_findings", "*.json"))):
+    kf += json.load(open(fp))
+fix_commits = []
+try:
+    log = subprocess.run(["git", "-C", "/repo", "log", "--format=%h %s"], stdout=subprocess.PIPE, text=True).stdout
+    fix_commits = [l.split()[0] for l in log.splitlines() if l.split(" ", 1)[1].startswith("fix:")]
+except Exception:
+    pass
+json.dump(dict(
+    note="Genuine defects of megaease/easegress found by the checks. status=open: recorded finding (the check prints KNOWN-FINDING for it and still reports any other violation); status=fixed: repaired by the named fix: commit in /repo (nothing is suppressed for it). Source of truth: known_findings/Cnn.json; this file is regenerated from them by tools/mkmanifest.py and never written at check time.",
+    fixed=[e.get("fixed_line") for e in kf if e.get("status") == "fixed"],
+    fix_commits=fix_commits,
+    findings=kf), open(os.path.join(V, "known_findings.json"), "w"), indent=1)
+
 man = dict(
     version=1,
     setup_cmd="python3 tools/setup.py",
